@@ -13,6 +13,7 @@ SPEC = {
         "in iteration order one space and the escaped argument; Pipeline's Debug joins the stages' command lines in "
         "order with \" | \"; Exec's Debug prints to_cmdline_lossy."
         " The quoted form is recognised as replace+format or as a single pass decided per character arm (' -> splice, everything else copied, quotes bracket the word); the 13 alphabetic shell reserved words are never emitted bare (R19.5, reported D13 on the pinned tree)."
+        " Words that POSIX lets a shell reserve (function, select, namespace) and time/coproc are quoted as well."
     ),
     "not_decided": "the round trip through an actual sh for all Unicode strings (value level); the KEY=value environment prefix rendering.",
     "trusted_base": ["rustc MIR", "POSIX shell quoting rules (oracle table SAFE in the rule)", "str::replace, Iterator::all, slice::join (std)",
@@ -271,8 +272,16 @@ def run(ctx):
         return e
     ne = nonempty_edges()
     all_e = bool_edges(de, T, lambda c: c[0] == "call" and c[1] == "std::iter::Iterator::all", True)
-    for bb, si in bare:
+    empty_e = bool_edges(de, T, lambda c: c[0] == "call" and c[1] in ("core::str::<impl str>::is_empty",) and M.noref(c[2][0]) == s_param, True)
+    for bb, si in list(bare):
         pay = T.operand(de.blocks[bb]["stmts"][si]["r"]["ops"][0])
+        lit = M.noref(pay)
+        if lit[0] == "const" and isinstance(lit[1], str):
+            # a constant word: only the quoted empty word, and only for the empty input
+            ctx.ob("R19.2", "constant-word-only-for-empty", lit[1] in ("''", '""') and bool(empty_e) and dominated_by_edges(de, bb, empty_e), de.loc(bb, si),
+                   "a constant rendering %r may be returned only for the empty word, as '' or \"\"" % lit[1])
+            bare.remove((bb, si))
+            continue
         ctx.ob("R19.2", "bare-only-if-nonempty", dominated_by_edges(de, bb, ne), de.loc(bb, si),
                "the unquoted form must be used only for a non-empty word: all() over no characters is vacuously true, so \"\" is rendered as nothing and the argument disappears when the line is read by sh")
         ctx.ob("R19.2", "bare-only-if-all-nice", dominated_by_edges(de, bb, all_e) and M.noref(pay) == s_param, de.loc(bb, si), "the unquoted form is the string itself, under all(nice_char)")
@@ -281,6 +290,10 @@ def run(ctx):
     # a word made of safe characters only can still be syntax: in command position sh parses `if`, `for`, `done` ... as
     # reserved words, not as the name of a program (POSIX XCU 2.4; `!`, `{`, `}` contain unsafe characters and are quoted anyway)
     RESERVED = ["case", "do", "done", "elif", "else", "esac", "fi", "for", "if", "in", "then", "until", "while"]
+    # POSIX XCU 2.4 also names words that "may be recognized as reserved words on some implementations" — function, select, namespace
+    # ([[ and ]] contain unsafe characters) — with unspecified results if used bare; `time` and `coproc` are reserved in bash/ksh/zsh, the
+    # shells most often installed as sh.  A faithful POSIX quoting does not rely on their being ordinary words.
+    MAYBE_RESERVED = ["function", "select", "namespace", "time", "coproc"]
     STR_EQ = ("core::str::traits::<impl std::cmp::PartialEq for str>::eq", "<str as std::cmp::PartialEq>::eq")
 
     def eq_words(fn_, T_, subj):
@@ -317,10 +330,15 @@ def run(ctx):
             t_e = bool_edges(de, T, lambda c, bb_=bb_: c[0] == "call" and len(c) > 3 and c[3] == bb_, True)
             if t_e and all(not (de.reachable(e_[1]) & bare_blocks) for e_ in t_e):
                 forced |= words_accepted_by(g_)
+    missing2 = [w for w in MAYBE_RESERVED if w not in forced]
     missing = [w for w in RESERVED if w not in forced]
     ctx.ob("R19.5", "reserved-words-quoted", not missing, de.loc(bare[0][0] if bare else 0),
            "a word that is a shell reserved word must take the quoted form: %s are emitted bare, so `Exec::cmd(\"%s\")` prints a line that sh parses as "
            "syntax instead of running that program (words forced to the quoted form: %s)" % (missing, missing[0] if missing else "", sorted(forced)))
+
+    ctx.ob("R19.5", "implementation-reserved-words-quoted", not missing2, de.loc(bare[0][0] if bare else 0),
+           "words that POSIX allows a shell to treat as reserved (function, select, namespace) and the bash/ksh/zsh reserved words time and coproc must take the "
+           "quoted form as well: %s are emitted bare, and with such a shell as sh the printed line runs something else or is a syntax error" % missing2)
 
     # ---- R19.3 the quoted form -------------------------------------------------------------
     rp = de.calls_to(lambda f: M.callee_str(f) == "std::str::<impl str>::replace")
